@@ -94,14 +94,14 @@ func verifyPredicate(vo *VerifyOptions, mode int, ctx, pk, msg, sig []byte) bool
 // VerifyWithOptions == predicate: all 2^5 flag vectors (minus the documented incompatible pair), the three
 // dom2 variants, all signature lengths 0..130, message lengths 0..2 (64 for ph), context lengths 1..2 and 255.
 //
-//verif:ob prop=C01,C19,C18 name=VerifyWithOptions_eq_predicate mode=bv tags=purego use=gapi split=mode:0..2;ns:0..1+31..33+63..65+96+128..130;nm:0..2;nc:1..2+255 tsplit=mode:0..2;ns:0..130;nm:0..3;nc:1..3+254..255 sharedro=1
+//verif:ob prop=C01,C19,C18 name=VerifyWithOptions_eq_predicate mode=bv tags=purego use=gapi split=mode:0..2;ns:0..1+31..33+63..65+96+128..130;nm:0..2;nc:0..2+128+255 tsplit=mode:0..2;ns:0..130;nm:0..3;nc:0..3+127..129+254..255 sharedro=1
 func vh_C01_verify() {
 	mode, ns, nm, nc := verif.Case("mode"), verif.Case("ns"), verif.Case("nm"), verif.Case("nc")
 	if mode == 2 {
 		nm = 64
 	}
-	if mode == 0 {
-		nc = 0
+	if (mode == 0) != (nc == 0) && mode != 2 {
+		return // pure Ed25519 has no context, Ed25519ctx needs one; Ed25519ph takes any context incl. the empty one
 	}
 	pk := make([]byte, 32)
 	verif.AnyBytes("pk", pk)
